@@ -24,7 +24,7 @@ BORROWS = {
     'C09': [('C08', None)],                         # fit -> action -> intrv / bsplvn
     'C10': [('C08', None), ('C09', None), ('C17', {'C17.REJ-MASKS', 'C17.GROW'})],      # iterfit -> fit / value / djs_reject
     'C11': [('C10', None), ('C08', None), ('C09', None),
-            ('C17', {'C17.REJ-MASKS', 'C17.GROW', 'C17.AESTH', 'C17.MI-SITES', 'C17.MI1-STORE', 'C17.MI1-ORDER'})],
+            ('C17', {'C17.REJ-MASKS', 'C17.GROW', 'C17.AESTH', 'C17.MI-SITES', 'C17.MI1-STORE', 'C17.MI1-ORDER', 'C17.SMOOTH'})],
     'C12': [('C18', {'C18.ANG-INV'})],              # RA/Dec input goes through angles_to_x
     'C13': [('C17', {'C17.REJ-MASKS', 'C17.GROW'})],    # xy2traceset rejects through djs_reject
     'C15': [('C17', {'C17.REJ-MASKS', 'C17.GROW'})],    # pca_solve rejects through djs_reject
